@@ -265,6 +265,22 @@ func (c *astChecker) node(n ast.Node, depth int, inLink bool, inInline bool) {
 		if v.Info != nil {
 			c.seg(n, "Info", v.Info.Segment)
 		}
+		_ = v.Language(c.src)
+	case *ast.AutoLink:
+		// the accessors slice the source with the recorded positions
+		_ = v.URL(c.src)
+		_ = v.Label(c.src)
+	case *ast.CodeSpan:
+		for ch := n.FirstChild(); ch != nil; ch = ch.NextSibling() {
+			if t, ok := ch.(*ast.Text); ok {
+				c.seg(ch, "CodeSpan text", t.Segment)
+			}
+		}
+	}
+	// the deprecated Text accessor still has to stay inside the source
+	// (leaf nodes only: it recurses, and calling it on every ancestor would be quadratic)
+	if !n.HasChildren() {
+		_ = n.Text(c.src)
 	}
 	if typ == ast.TypeBlock || typ == ast.TypeDocument {
 		if lines := n.Lines(); lines != nil && lines.Len() > 0 {
